@@ -9,6 +9,6 @@ CONSTANTS
   MaxClock = 1
   Weaken = "none"
 VIEW MCView
-INVARIANTS NeverRejectsAfterRefoot
+INVARIANTS NeverExpired
 PROPERTIES AcceptNeedsKey GenStable
 CHECK_DEADLOCK FALSE
